@@ -20,6 +20,14 @@ Theorem C33_no_crash : forall pf c evs, times_ok c evs = true -> load pf c evs <
 Proof. exact load_no_crash. Qed.
 Print Assumptions C33_no_crash.
 
+(** Completeness: a file without read errors whose every row converts (and whose column types have a
+    wire type string) IS loaded, for every chunk size >= 1 — the guarded theorem is not vacuous on any such file. *)
+Theorem C33_complete : forall pf c evs d,
+  1 <= c_chunk c -> wire_ok c = true -> no_err evs = true -> conv_spec pf c (rows_of evs) = Some d ->
+  load pf c evs = Loaded d.
+Proof. exact load_complete. Qed.
+Print Assumptions C33_complete.
+
 (** Full statement (the property as given: all CSV files, rows with wrong field counts or unparsable
     values at any position, all chunk sizes): the import never crashes, and success means every data
     row was loaded.  Refuted twice. *)
